@@ -5,6 +5,8 @@ import SpoxModel.Lemmas.BuildAlgDiscover
 import SpoxModel.Lemmas.BuildAlgLeak
 import SpoxModel.Lemmas.BuildAlgScope
 import SpoxModel.Lemmas.BuildAlgOrder
+import SpoxModel.Lemmas.BridgeWalk
+import SpoxModel.Props.C01
 /-! Property theorems for C04 (only property-level statements and non-vacuity examples live here). -/
 namespace C04
 open BuildAlg
@@ -306,6 +308,37 @@ theorem scope_defined (p : Prog) (hwf : WF p) (b : Built) (tr : List Ev)
       have : (0 : Nat) ∈ b.graphTopo := by rw [htopo]; simpa using h0
       rw [hnil] at this; cases this
     · exact ⟨d, T⟩
+
+/-! ### the bridge to the shared program model (C01): the built emission is accepted by `validG` -/
+
+/-- **build_valid_of_facts**: from the scope facts `BridgeFacts` (all of which are consequences of the
+    theorems above, except that no argument is used outside its body), the nested emission of a
+    successful build, rendered as a `Prog.EGraph`, is accepted by C01's `validG` for the translated
+    program. Proof: induction along the compile walk with a ghost stack of frames. -/
+theorem build_valid_of_facts (p : BuildAlg.Prog) (hwf : WF p) (b : Built) (tr : List Ev)
+    (h : build p = .ok (b, tr)) (d : Nat → Nat) (F : Bridge.BridgeFacts p b d) :
+    Prog.validG (Bridge.toProg p b.argsOf).nodes (Bridge.toEGraph p b)
+      (Bridge.toProg p b.argsOf).main [] = true := by
+  have hc : ∃ cs, compileG p b (p.graphs.length + 1) 0 ⟨[], []⟩ = .ok cs ∧ (0 : Nat) ∈ b.graphTopo := by
+    obtain ⟨st, _, h0, htopo, _⟩ := discover_final p hwf b tr h
+    unfold build at h
+    split at h
+    · cases h
+    · simp only at h
+      split at h
+      · cases h
+      · split at h
+        · cases h
+        · rename_i cs hcs
+          cases h
+          exact ⟨cs, hcs, by rw [htopo]; simpa using h0⟩
+  obtain ⟨cs, hcs, h0⟩ := hc
+  have I0 : Bridge.WInv p b ⟨[], []⟩ [] [] [] [] :=
+    ⟨fun x hx => (by simp [Bridge.visOf] at hx), trivial, fun e he => (by cases he),
+     fun e he => (by cases he), fun c hc => (by cases hc), fun e he => (by cases he),
+     fun x hx => (by cases hx), fun w hw => (by cases hw)⟩
+  exact (Bridge.walk_graph p hwf b d F _ 0 ⟨[], []⟩ cs [] [] [] [] I0 h0
+    (by intro w hw; cases hw) (Or.inl ⟨rfl, rfl⟩) hcs).1
 
 /-! ### the remaining rejections are single tests of the model (exercised by the correspondence) -/
 
